@@ -73,7 +73,7 @@ def guard_placement(run, f, lc):
     held = False
     ysp = None
     if len(polls) == 1:
-        ps = b.blocks[polls[0]].term["span"]
+        ps = b.blocks[polls[0]].term.get("layout_span", b.blocks[polls[0]].term["span"])
         vs = [v for v in b.layout["variants"] if v["span"] == ps]
         if len(vs) == 1:
             ysp = ps
